@@ -35,6 +35,34 @@ Theorem C36_strip_roundtrip : forall bin cfg f,
 Proof. exact strip_roundtrip_full_proof. Qed.
 Print Assumptions C36_strip_roundtrip.
 
+(** The same holds when source and destination are ONE file (the same path,
+    a symbolic or hard link, another spelling): for every file state, every
+    pair of file identities i (source) and j (destination), equal or not,
+    after AppendConfig the destination reads back the configuration, reports
+    the source's original size, and stripping it onto any file k (j itself
+    included: in place) yields the bytes the source held before. *)
+Theorem C36_in_place_roundtrip : forall st i j cfg st1,
+  fsize (fget st i) + fsize cfg + 16 <= max_alloc ->
+  append_config_at st i j cfg = (st1, Ok tt) ->
+  (cfg <> [] -> snd (read_embedded (fget st1 j)) = Ok cfg) /\
+  snd (orig_size (fget st1 j)) = Ok (fsize (fget st i)) /\
+  forall k, exists st2, strip_at st1 j k = (st2, Ok tt) /\ fget st2 k = fget st i.
+Proof. exact in_place_roundtrip_proof. Qed.
+Print Assumptions C36_in_place_roundtrip.
+
+(** Why the order "read the whole source, then open the destination"
+    matters: a copy that truncates the destination first still round-trips
+    the configuration but strips to an empty file when embedding in place. *)
+Theorem C36_streaming_in_place_refuted :
+  let st := [(1%N, [x7f; x45; x4c; x46])] in
+  let cfg := [x61; x3a; x31] in
+  exists st1, append_config_streaming_at st 1%N 1%N cfg = (st1, Ok tt) /\
+    snd (read_embedded (fget st1 1%N)) = Ok cfg /\
+    snd (copy_without_config (fget st1 1%N)) = Ok [] /\
+    snd (copy_without_config (fget (fst (append_config_streaming_at st 1%N 2%N cfg)) 2%N)) = Ok [x7f; x45; x4c; x46].
+Proof. exact streaming_in_place_loses_binary. Qed.
+Print Assumptions C36_streaming_in_place_refuted.
+
 (** AppendConfig refuses exactly the binaries of at least 16 bytes that end in the magic marker. *)
 Theorem C36_append_refuses_only_embedded : forall bin cfg,
   append_config bin cfg = Err EAlready <-> already_embedded bin = true.
@@ -88,6 +116,10 @@ Theorem C36_source_facts :
   gen_footer_size = footer_size /\ bytes_of_Ns gen_magic = magic /\ bytes_of_Ns gen_xor_key = xor_key /\
   length gen_xor_key = 32%nat /\ gen_xor_indexes_key_mod_len = true /\
   gen_read_guard = 2%N /\ gen_read_guard_before_use = true /\
-  gen_origsize_guard = 2%N /\ gen_origsize_guard_before_use = true.
+  gen_origsize_guard = 2%N /\ gen_origsize_guard_before_use = true /\
+  (* source and destination may be one file ([append_config_at], [strip_at] compute the new
+     content from the old state): the whole source is read before the destination is opened *)
+  gen_append_reads_source_before_opening_dst = true /\ gen_append_streams_source = false /\
+  gen_strip_reads_original_before_writing_dst = true /\ gen_strip_streams_source = false.
 Proof. repeat split; reflexivity. Qed.
 Print Assumptions C36_source_facts.
